@@ -118,8 +118,8 @@ PATTERNS_2D = [
     ([S(2, 0, -1), L([1, 1, 0], "np")], "scalar", "np"), ([B([1, 0, 1])], "full", "np"), ([B([1, 0, 1], "dask")], "trail", "np"),
     ([S(), B([0, 1], "np")], "full", "dask"), ([ELL, I(0)], "full", "np"), ([I(2), ELL], "ones", "np"), ([I(2), I(1)], "scalar", "np"),
     ([I(2), I(1)], "np0d", "dask"), ([S(1, 3), S(0, 1)], "ones", "np"), ([S(), S()], "trail", "dask"), ([S(), S()], "lead1", "np"),
-    ([{"k": "mask", "seed": 5, "p": 0.5, "as": "np", "c": None}], "scalar", "np"),
-    ([{"k": "mask", "seed": 5, "p": 0.5, "as": "np", "c": None}], "full", "np"),
+    ([{"k": "mask", "seed": 5, "p": 0.5, "as": "dask", "c": None}], "npscalar", "np"),
+    ([{"k": "mask", "seed": 6, "p": 1.1, "as": "dask", "c": None}], "scalar", "np"),
     ([{"k": "mask", "seed": 7, "p": 0.5, "as": "dask", "c": None}], "scalar", "np"),
     ([{"k": "mask", "seed": 7, "p": 0.5, "as": "dask", "c": [[1, 2], [2]]}], "np0d", "dask"),
     ([S(5, None), S()], "scalar", "np"), ([S(None, None, -1), S(None, None, -1)], "full", "dask"), ([L([-1, -3]), S(None, None, -1)], "full", "np"),
@@ -215,21 +215,34 @@ def make_value(sel_shape, dtype, vmode, vkind, vseed, da):
 
 
 class Outcome:
-    __slots__ = ("status", "symptom", "msg", "exc", "value", "vdesc")
+    __slots__ = ("status", "symptom", "msg", "exc", "value", "vdesc", "selshape", "vshape", "vmode")
 
     def __init__(self, status, symptom=None, msg="", exc=None):
         self.status, self.symptom, self.msg, self.exc = status, symptom, msg, exc
         self.value = None
         self.vdesc = ""
+        self.selshape = self.vshape = self.vmode = None
 
 
-def scalar_only(enc, shape, nidx):
-    """Indices for which only size-1 values are in the domain (see Calibration)."""
+SCALARLIKE = ("scalar", "npscalar", "np0d")
+
+
+def where_path(enc, shape):
+    """A dask boolean mask covering the whole array: Array.__setitem__ uses where(mask, value, x)."""
     if any(e["k"] == "mask" and e.get("as") == "dask" for e in enc):
         return True
-    if len(shape) == 1 and any(e["k"] == "blist" and e.get("as") == "dask" for e in enc):
-        return True
-    return IX.adv_nonadjacent(nidx)
+    return len(shape) == 1 and len(enc) == 1 and enc[0]["k"] == "blist" and enc[0].get("as") == "dask"
+
+
+def adjust_vmode(enc, shape, nidx, sel, vmode, vseed):
+    """Value modes outside the domain of an index are mapped to ones inside (see Calibration)."""
+    if where_path(enc, shape) and vmode not in SCALARLIKE:
+        return "size1" if vseed % 6 == 0 else SCALARLIKE[vseed % 3]
+    if IX.adv_nonadjacent(nidx) and vmode not in SCALARLIKE + ("size1",):
+        return "size1" if vseed % 2 else "scalar"
+    if np.size(sel) == 0 and vmode not in SCALARLIKE and vseed % 4:
+        return "scalar"
+    return vmode
 
 
 def evaluate(shape, chunks, dtype, enc, bare, vmode, vkind, vseed, threads=False):
@@ -247,8 +260,11 @@ def evaluate(shape, chunks, dtype, enc, bare, vmode, vkind, vseed, threads=False
             sel = x[nidx]
         except (IndexError, ValueError, TypeError) as ex:
             return Outcome("reject", msg="numpy: %s: %s" % (type(ex).__name__, ex))
-        if scalar_only(enc, shape, nidx) and vmode not in ("scalar", "npscalar", "np0d", "size1"):
-            vmode = "size1" if vseed % 2 else "scalar"
+        if any(e["k"] == "mask" and e.get("as") != "dask" for e in enc) and len(shape) != 1:
+            # Calibration: an n-d NumPy boolean mask is not among the documented assignment indices (1-d NumPy
+            # masks and n-d *dask* masks are); dask raises IndexError in parse_assignment_indices.  Side statistic.
+            return Outcome("reject", msg="n-d NumPy boolean mask is not a documented assignment index")
+        vmode = adjust_vmode(enc, shape, nidx, sel, vmode, vseed)
         nv, dv, vdesc = make_value(np.shape(sel), dtype, vmode, vkind, vseed, da)
         e = x.copy()
         try:
@@ -265,10 +281,11 @@ def evaluate(shape, chunks, dtype, enc, bare, vmode, vkind, vseed, threads=False
             return Outcome("unsupported", msg=str(ex))
         except Exception as ex:  # noqa: BLE001
             o = Outcome("exc", exc_label(ex), "%s: %s" % (type(ex).__name__, ex), ex)
-            o.vdesc = vdesc
+            o.vdesc, o.selshape, o.vshape, o.vmode = vdesc, np.shape(sel), np.shape(nv), vmode
             return o
         out = Outcome("ok")
         out.value, out.vdesc = rv, vdesc
+        out.selshape, out.vshape, out.vmode = np.shape(sel), np.shape(nv), vmode
         m = compare_arrays(rv, e, exact=True)
         if m:
             out.status, out.symptom, out.msg = "mismatch", m[0], m[1]
@@ -330,7 +347,12 @@ def run_case(case, ctx):
             ctx.count("dask_values")
         ctx.sample = {"index": IX.show(enc), "chunks": case["chunks"], "value": out.vdesc}
         return
-    label, detail = classify(shape, chunks, case["dtype"], enc, bare, vmode, vkind, vseed, out.symptom)
+    if (out.status == "exc" and out.symptom == "ValueError@array/slicing.py:setitem_array" and 0 in out.selshape
+            and out.vshape and 0 in out.vshape):
+        # direct mechanism predicate (robust against the many shapes an empty selection can take)
+        label, detail = "setitem:empty-selection&value=zero-size-array:" + out.symptom, {}
+    else:
+        label, detail = classify(shape, chunks, case["dtype"], enc, bare, out.vmode or vmode, vkind, vseed, out.symptom)
     detail.update({"index": IX.show(enc), "shape": list(shape), "chunks": case["chunks"], "value": out.vdesc})
     if out.status == "exc":
         import traceback
@@ -365,7 +387,7 @@ def classify(shape, chunks, dtype, enc, bare, vmode, vkind, vseed, sym):
     if sym_m not in MISMATCH_SYMPTOMS:
         enc_m, shape_m, chunks_m, sym_m = IX.shrink(enc_m, shape_m, chunks_m, probe, sym_m, accept=lambda s: s not in MISMATCH_SYMPTOMS)
     vm, vk = state["vmode"], state["vkind"]
-    vtok = "scalar" if vm in ("scalar", "npscalar", "np0d") else {"full": "array", "size1": "size-1-array"}.get(vm, "broadcast-array")
+    vtok = "scalar" if vm in SCALARLIKE else {"full": "array", "size1": "size-1-array", "lead1": "array-with-extra-leading-1-axes"}.get(vm, "broadcast-array")
     if vk == "dask" and vm not in ("scalar", "npscalar"):
         vtok = "dask-" + vtok
     elif vk == "list" and vm not in ("scalar", "npscalar", "np0d"):
